@@ -196,26 +196,139 @@ func checkC14(c *Ctx) {
 		}
 	}
 	// ------------------------------------------------------------------ L1 (Send side)
+	// the three steps — mark the topic started, look its buffer up, delete it — are found wherever Send
+	// performs them (in place, in helpers of its own, in helpers shared with the collector) and compared
+	// at the instruction of Send that executes them
+	type sendEvent struct {
+		in    ssa.Instruction   // the event
+		at    ssa.Instruction   // the instruction of Send executing it
+		key   ssa.Value         // topic key, resolved to Send's frame
+		chain []ssa.Instruction // at … in: the instruction executing the event at every level of the call chain
+	}
+	sendRegion := []*ssa.Function{}
+	{
+		seen := map[*ssa.Function]bool{}
+		var grow func(f *ssa.Function, d int)
+		grow = func(f *ssa.Function, d int) {
+			if f == nil || seen[f] || f.Blocks == nil || pkgPathOf(f) != PkgMsg || d > 2 || f == b.maybeGC {
+				return
+			}
+			seen[f] = true
+			sendRegion = append(sendRegion, f)
+			for _, in := range instrsOf(f) {
+				if cl, ok := in.(*ssa.Call); ok { // plain calls only: deferred and spawned calls run elsewhere
+					grow(staticCallee(&cl.Call), d+1)
+				}
+			}
+		}
+		grow(b.send, 0)
+	}
+	eventsOf := func(match func(in ssa.Instruction) (ssa.Value, bool)) []sendEvent {
+		var out []sendEvent
+		for _, fn := range sendRegion {
+			for _, in := range instrsOf(fn) {
+				key, ok := match(in)
+				if !ok {
+					continue
+				}
+				ctxs, okc := contextsOf(in, map[*ssa.Function]bool{b.send: true}, sendRegion, 3)
+				if !okc {
+					continue
+				}
+				for _, sc := range ctxs {
+					at := in
+					var chain []ssa.Instruction
+					for _, cs := range sc.Calls {
+						chain = append(chain, cs.(ssa.Instruction))
+					}
+					chain = append(chain, in)
+					if len(sc.Calls) > 0 {
+						at = sc.Calls[0].(ssa.Instruction)
+					}
+					out = append(out, sendEvent{in, at, sc.Resolve(key), chain})
+				}
+			}
+		}
+		return out
+	}
+	marksE := eventsOf(func(in ssa.Instruction) (ssa.Value, bool) {
+		mu, ok := in.(*ssa.MapUpdate)
+		if ok && isLoadOfField(mu.Map, b.fStarted) {
+			return mu.Key, true
+		}
+		return nil, false
+	})
+	snapsE := eventsOf(func(in ssa.Instruction) (ssa.Value, bool) {
+		lk, ok := in.(*ssa.Lookup)
+		if ok && isLoadOfField(lk.X, b.fPending) {
+			return lk.Index, true
+		}
+		return nil, false
+	})
+	delsE := eventsOf(func(in ssa.Instruction) (ssa.Value, bool) {
+		ci, ok := in.(ssa.CallInstruction)
+		if !ok {
+			return nil, false
+		}
+		if bi, isB := ci.Common().Value.(*ssa.Builtin); isB && bi.Name() == "delete" && isLoadOfField(ci.Common().Args[0], b.fPending) {
+			return ci.Common().Args[1], true
+		}
+		return nil, false
+	})
 	var markSt *ssa.MapUpdate
-	for _, mu := range mapUpdatesOfField(deepFuncs(b.send), b.fStarted) {
-		markSt = mu
-	}
 	var snap *ssa.Lookup
-	for _, lk := range lookupsOfField(deepFuncs(b.send), b.fPending) {
-		snap = lk
-	}
-	var del ssa.CallInstruction
-	for _, d := range mapDeletesOfField(deepFuncs(b.send), b.fPending) {
-		del = d
-	}
-	if markSt == nil || snap == nil || del == nil {
+	if len(marksE) == 0 || len(snapsE) == 0 || len(delsE) == 0 {
 		c.Bad(L1, FuncName(b.send), "mark + snapshot + delete", m.Pos(b.send.Pos()), "Send does not mark the topic started, take the buffer and delete it")
 	} else {
-		s1, s2, s3 := b.la.sectionOf(markSt, b.boxLock), b.la.sectionOf(snap, b.boxLock), b.la.sectionOf(del.(ssa.Instruction), b.boxLock)
-		ok := s1 != nil && s1 == s2 && s2 == s3 && b.la.Holds(markSt, b.boxLock, LockW) && b.la.Holds(del.(ssa.Instruction), b.boxLock, LockW)
-		sameKey := sameValue(markSt.Key, snap.Index) || b.sl.sameRoot(markSt.Key, snap.Index)
-		sameKey = sameKey && (sameValue(markSt.Key, del.Common().Args[1]) || b.sl.sameRoot(markSt.Key, del.Common().Args[1]))
-		c.Check(ok && sameKey, L1, FuncName(b.send), "mark + snapshot + delete in one exclusive section, same topic", m.Pos(markSt.Pos()), "one acquisition of Box.lock", "Send marks the topic started, snapshots and deletes the buffer in separate critical sections (or for different keys): a message stored in between is lost or delivered twice")
+		okL1 := false
+		sameKeyV := func(x, y ssa.Value) bool { return sameValue(x, y) || b.sl.sameRoot(x, y) }
+		for _, me := range marksE {
+			for _, se := range snapsE {
+				for _, de := range delsE {
+					// compared in the deepest function that executes all three (Send itself, or a helper holding the whole section)
+					inOne := false
+					for lvl := len(me.chain) - 1; lvl >= 0 && !inOne; lvl-- {
+						f := me.chain[lvl].Parent()
+						var x2, x3 ssa.Instruction
+						for _, x := range se.chain {
+							if x.Parent() == f {
+								x2 = x
+							}
+						}
+						for _, x := range de.chain {
+							if x.Parent() == f {
+								x3 = x
+							}
+						}
+						if x2 == nil || x3 == nil {
+							continue
+						}
+						x1 := me.chain[lvl]
+						s1, s2, s3 := b.la.sectionOf(x1, b.boxLock), b.la.sectionOf(x2, b.boxLock), b.la.sectionOf(x3, b.boxLock)
+						if s1 != nil && s1 == s2 && s2 == s3 && b.la.Holds(x1, b.boxLock, LockW) && b.la.Holds(x3, b.boxLock, LockW) {
+							inOne = true
+						}
+					}
+					if inOne && sameKeyV(me.key, se.key) && sameKeyV(me.key, de.key) {
+						okL1 = true
+						markSt, _ = me.in.(*ssa.MapUpdate)
+						snap, _ = se.in.(*ssa.Lookup)
+					}
+				}
+			}
+		}
+		if markSt == nil {
+			markSt, _ = marksE[0].in.(*ssa.MapUpdate)
+			snap, _ = snapsE[0].in.(*ssa.Lookup)
+		}
+		c.Check(okL1, L1, FuncName(b.send), "mark + snapshot + delete in one exclusive section, same topic", m.Pos(markSt.Pos()), "one acquisition of Box.lock", "Send marks the topic started, snapshots and deletes the buffer in separate critical sections (or for different keys): a message stored in between is lost or delivered twice")
+	}
+	// the instruction of Send that performs the mark (for the ordering of the drain)
+	var markAt ssa.Instruction
+	for _, me := range marksE {
+		if me.in == ssa.Instruction(markSt) {
+			markAt = me.at
+		}
 	}
 
 	// ------------------------------------------------------------------ L2
@@ -273,11 +386,11 @@ func checkC14(c *Ctx) {
 		// executes after the mark: the closure is deferred/called after the mark
 		after := false
 		if d.Parent() == b.send {
-			after = markSt != nil && instrDominates(markSt, d.(ssa.Instruction))
+			after = markAt != nil && instrDominates(markAt, d.(ssa.Instruction))
 		} else {
 			for _, in := range instrsOf(b.send) {
 				if ci, ok := in.(ssa.CallInstruction); ok {
-					if cal := b.sl.calleeOfInstr(ci); cal == d.Parent() && markSt != nil && instrDominates(markSt, in) {
+					if cal := b.sl.calleeOfInstr(ci); cal == d.Parent() && markAt != nil && instrDominates(markAt, in) {
 						after = true
 					}
 				}
